@@ -115,6 +115,27 @@ def generate(seed, run, tier):
         else:
             epoch += 1
             ops[-1]['next'] = 'tick'
+    # another regularizer object lives in the same process (an earlier search of a sweep, a second constraint set):
+    # its construction and calls are interleaved with the history of the regularizer under test. Drawn from a
+    # stream of its own, so the rest of the case does not depend on it.
+    ro = Stream(seed, ID, run, 'others')
+    if ro.chance(0.3):
+        others = []
+        for _ in range(ro.randint(1, 2)):
+            o = {'names': list(names) if ro.chance(0.7) else [ro.choice(names)],
+                 'n_epochs': ro.choice([1, 5, 20, 50]),
+                 'c0': {n: ro.loguniform(1.0, 1e6) for n in names},
+                 'gap': ro.loguniform(1e-3, 0.9), 'place': ro.wchoice([('above', 4), ('below', 1)])}
+            if ro.chance(0.7):
+                o['task_loss'] = ro.loguniform(1e-3, 10.0)
+            else:
+                o['final_strengths'] = [ro.loguniform(1e-8, 1e2) for _ in o['names']]
+            others.append(o)
+        case['others'] = others
+        for t in range(ro.randint(1, 4)):
+            j = ro.randint(0, len(others) - 1)
+            pos = 0 if (t == 0 and ro.chance(0.6)) else ro.randint(0, len(ops))
+            ops.insert(pos, {'op': 'other_call', 'j': j, 'epoch': ro.randint(0, others[j]['n_epochs'])})
     case['ops'] = ops
     return case
 
@@ -366,10 +387,52 @@ def execute(case):
         return v
 
     pending_fault_flag = [False]
+    others = {}
+
+    def other_call(i, op):
+        """a call of ANOTHER regularizer object (own targets, own strengths, own stub model), built at its first use"""
+        j = op['j']
+        o = case['others'][j]
+        f = (1 - o['gap']) if o['place'] == 'above' else (1 + o['gap'])
+        if j not in others:
+            tg = {n: torch.tensor(float(o['c0'][n]) * f) for n in o['names']}
+            if 'task_loss' in o:
+                r = DUCCIO(tg, task_loss=torch.tensor(float(o['task_loss'])))
+            else:
+                r = DUCCIO(tg, final_strengths=tuple(torch.tensor(float(s_)) for s_ in o['final_strengths']))
+
+            class OtherStub:
+                def get_cost(self, name):
+                    return torch.tensor(float(o['c0'][name]), requires_grad=True) * 1.0
+            others[j] = (r, OtherStub(), tg)
+        r, st, tg = others[j]
+        v = float(r(st, op['epoch'], o['n_epochs']).detach())
+        events.append(f"{i} other regularizer #{j} epoch={op['epoch']}/{o['n_epochs']} -> {v:.6g}")
+        if o['place'] != 'above':
+            return
+        # the other object obeys the same closed form, whatever the object under test did before
+        exc = {n: float(torch.tensor(float(o['c0'][n]))) - float(tg[n]) for n in o['names']}
+        if any(not (e_ > 0) for e_ in exc.values()):
+            return
+        fin = [o['task_loss'] / exc[n] for n in o['names']] if 'task_loss' in o else \
+            [float(torch.tensor(float(s_))) for s_ in o['final_strengths']]
+        if not all(math.isfinite(x) for x in fin):
+            return
+        ref = sum(ref_strength(s_, op['epoch'], o['n_epochs']) * exc[n] for n, s_ in zip(o['names'], fin))
+        bump('other_regularizer_closed_form_checks')
+        if not math.isfinite(v) or not _close(v, ref, rtol=2e-4, atol=1e-30):
+            fail('DUCCIO value differs from sum_i strength_i(epoch) * max(0, cost_i - target_i)',
+                 'duccio:closed-form', f"(second regularizer object of the process) epoch={op['epoch']}/{o['n_epochs']} "
+                 f'value={v} reference={ref} finals={fin} excess={exc}')
+
     for i, op in enumerate(case['ops']):
         steps += 1
         k = op['op']
-        if k == 'base':
+        if k == 'other_call':
+            bump('fault_other_regularizer_object_called')
+            pending_fault_flag[0] = True
+            other_call(i, op)
+        elif k == 'base':
             st = torch.tensor(float(op['strength'])) if op.get('as_tensor') else op['strength']
             br = BaseRegularizer(cost_name=op['name'], strength=st)
             c_before = cost_now(op['name'])
@@ -484,7 +547,7 @@ def execute(case):
     span = (max(epochs_seen) - min(epochs_seen) + 1) if epochs_seen else 0
     shape = json.dumps([case['kind'], len(names), case['mode'], n_ep,
                         [case['metrics'][n]['place'] for n in names],
-                        [[o['op'], o.get('epoch'), o.get('next'), o.get('name'), o.get('factor'), o.get('n'), o.get('default_call')] for o in case['ops']]])
+                        [[o['op'], o.get('epoch'), o.get('next'), o.get('name'), o.get('factor'), o.get('n'), o.get('default_call'), o.get('j')] for o in case['ops']]])
     return {'failures': failures, 'events': events, 'stats': stats, 'steps': steps,
             'nontrivial': nontrivial and precond,
             'shape': hashlib.sha256(shape.encode()).hexdigest(), 'sim_time': span}
